@@ -48,7 +48,7 @@ SPEC = dict(
          'distinct_nontrivial = distinct (container kind, operation, element-size class, index class(es), capacity state) combinations judged, plus for the large class '
          '(kind, operation, element-size class, floor(log2 count), operation class).',
     exhaustive={},
-    require=['sorts-and-search-on-empty-container', 'huge-vec-setm', 'huge-vec-setn', 'huge-buf-new', 'huge-buf-setm', 'state-compared-with-model', 'returned-pointer-inside-owned-storage', 'removed-element-intact-and-past-live-range',
+    require=['form/a_iterate', 'form/A_ITERATE', 'form/a_iterate_reverse', 'form/A_ITERATE_REVERSE', 'sorts-and-search-on-empty-container', 'huge-vec-setm', 'huge-vec-setn', 'huge-buf-new', 'huge-buf-setm', 'state-compared-with-model', 'returned-pointer-inside-owned-storage', 'removed-element-intact-and-past-live-range',
              'buf-refuses-when-full', 'remove-path-full', 'remove-path-spare', 'sort_fore-path-full', 'sort_fore-path-spare',
              'sort_back-path-full', 'sort_back-path-spare', 'push_sort', 'sorted-insert-keeps-order-and-elements', 'sort-sorted-permutation',
              'search-finds-iff-present', 'erase-out-of-range-reports-obounds', 'erase-destroys-each-erased-element-once', 'setz-rederives-capacity',
